@@ -694,6 +694,37 @@ def run_row(psutil, mod, row):
         r = outcome(fn)
         r.update(world_info())
         return r
+    if k == "einval":
+        # NetBSD: KERN_PROC_ARGS answers EINVAL for a process it cannot describe any more -- a zombie,
+        # or a PID that has just gone: the layer has to say which
+        W.reset(row["pid"], row["state"] == "zombie", True, row.get("name", PROCNAME), row.get("scale", 1))
+        pkg = row.get("via") == "package"
+        target = psutil.Process(row["pid"]) if pkg else mod.Process(row["pid"])
+        table = PUBLIC_CALLS if pkg else MODULE_CALLS
+        if pkg:
+            target.name()
+        else:
+            target._name = CACHED
+
+        def body():
+            W.state = row["state"]
+            W.arm(1, "EINVAL")
+            return call(target, row["m"], table)
+
+        def fn():
+            if not row.get("oneshot"):
+                return body()
+            if pkg:
+                with target.oneshot():
+                    return body()
+            target.oneshot_enter()
+            try:
+                return body()
+            finally:
+                target.oneshot_exit()
+        r = outcome(fn)
+        r.update(world_info())
+        return r
     if k == "platform":
         W.reset(5, False, True)
         names = {}
